@@ -425,6 +425,7 @@ def _own_exprs(s):
 
 DIVERGENCE_CLASS = 'no_fixed_point_nonmonotone_transfer'
 UNBOUNDED_CLASS = 'no_fixed_point_unbounded_product_types'
+UNLISTED_PARAM = 'untyped_parameter_never_typed (not a finding: the pinned code reports nothing for it)'
 CLASS_ORDER = ['retyped_by_untracked_binder', 'retyped_by_untyped_assignment', 'nonlocal_rebound_in_callee',
                'retyped_by_local_call_side_effect', 'captured_var_rebound_by_calling_statement',
                'local_function_called_from_sibling', 'starred_target_typed_by_position']
@@ -496,6 +497,15 @@ def compute_taint(an):
                         if x not in local:
                             add(x, ['captured_var_rebound_by_calling_statement'])
         seeds[fi.def_id] = sorted(S)
+        bound_elsewhere = set()
+        for d in fi.nodes:
+            if isinstance(d['ast'], ast.arguments):
+                continue
+            bound_elsewhere |= {d['ast'].name} if isinstance(d['ast'], ast.FunctionDef) else set(stored_names(d['ast']))
+            if id(d['ast']) in an.for_of_iter:
+                bound_elsewhere |= set(stored_names(an.for_of_iter[id(d['ast'])].target))
+        for dd in nested_defs(fi.fdef, deep=True):
+            bound_elsewhere |= nonlocal_stores(dd)
         changed = True
         news_cache = {}
         while changed:
@@ -511,7 +521,12 @@ def compute_taint(an):
                         news_cache[d['id']] = an.real_new_symbols(fi, d)
                     for arg in list(a.posonlyargs) + list(a.args) + ([a.vararg] if a.vararg else []) + list(a.kwonlyargs) + ([a.kwarg] if a.kwarg else []):
                         if arg.arg not in news_cache[d['id']]:
-                            changed |= add(arg.arg, ['retyped_by_untyped_assignment'])
+                            # an untyped parameter must be in S (it has a value but no entry).  If some other node of the
+                            # function also binds it, a join can mix a typed set with the unknown one (the listed class);
+                            # if the arguments node is its ONLY binder the pinned code never records anything for it, so a
+                            # set reported for it is not excused by any listed finding.
+                            changed |= add(arg.arg, ['retyped_by_untyped_assignment'] if arg.arg in bound_elsewhere
+                                           else [UNLISTED_PARAM])
                     continue
                 if id(a) in an.for_of_iter:
                     for x in stored_names(an.for_of_iter[id(a)].target):
@@ -523,6 +538,8 @@ def compute_taint(an):
                         cls = set()
                         for x in srcs:
                             cls |= S[x]
+                        if UNLISTED_PARAM in cls:      # a value computed from an untyped parameter is an untyped assignment
+                            cls = (cls - {UNLISTED_PARAM}) | {'retyped_by_untyped_assignment'}
                         for x in stored_names(a):
                             changed |= add(x, cls)
                     else:
